@@ -167,6 +167,7 @@ Example C16_nonvacuous_resolution :
   find_this ex_stack (PThis 0) = Some (recp is_int (PThis 0)) /\
   find_this ex_stack (PThis 2) = None.
 Proof. exact find_this_nonvacuous. Qed.
+Print Assumptions C16_nonvacuous_resolution.
 Example C16_nonvacuous_meaning :
   run_calls Wex 20 []
     [ ([], user_stack, Pex, vlist [vstr; vlist [vstr; vlist []]]); ([], user_stack, Pex, vlist [vstr; vlist [vint]]);
@@ -174,6 +175,7 @@ Example C16_nonvacuous_meaning :
       ([], [], Pex, vlist [vstr; vlist [vstr]]) ]
   = [RBool true; RBool false; RBool true; RBool false; RBool true].
 Proof. exact recursive_meaning_nonvacuous. Qed.
+Print Assumptions C16_nonvacuous_meaning.
 Example C16_nonvacuous_lazy :
   run_calls Wex 20 []
     [ ([], [[("P", OPred (Lex "P"))]], Lex "P", vlist [vstr; vlist [vstr]]);
@@ -182,7 +184,10 @@ Example C16_nonvacuous_lazy :
       ([], [[("v", OData true)]], Lex "K", vlist [vstr]) ]
   = [RBool true; RBool false; RBool true; RValueError].
 Proof. exact lazy_nonvacuous. Qed.
+Print Assumptions C16_nonvacuous_lazy.
 Example C16_nonvacuous_unresolved :
   run_calls Wex 20 [] [ ([], [], Pex, vstr); ([], [], Pex, vlist []); ([], [], Pex, vlist [vstr]); ([], user_stack, Pex, vlist [vstr]) ]
   = [RBool true; RBool true; RValueError; RValueError].
 Proof. exact unresolved_nonvacuous. Qed.
+
+Print Assumptions C16_nonvacuous_unresolved.
